@@ -269,8 +269,13 @@ func genField(rng *rand.Rand, sb *strings.Builder, class string, s, f int, gener
 		prefix = zhComments[rng.Intn(len(zhComments))] + " "
 	}
 	trail := ""
-	if rng.Intn(6) == 0 {
+	switch rng.Intn(12) {
+	case 0, 1:
 		trail = " "
+	case 2:
+		// prose after the items, in the same comment: it is not part of any value (a backquote in it
+		// does not make the field unprocessable)
+		trail = []string{" — see `Name` for details", " （备注）", " TODO(me): tidy up", " ; `x`", "  // and more"}[rng.Intn(5)]
 	}
 	if class == "G6" && rng.Intn(5) == 0 {
 		// a doc comment above an annotated field: only the trailing comment counts
